@@ -19,7 +19,7 @@ PROP = 'C06'
 LEVEL = 'exploration'
 RULE = ('random universes (multi-namespace, inheritance, attributes/XmlData, restrictions on every primitive) x {XmlDocument, Soap11, '
         'Soap12}: schema compilation; libxml2 validation of every document spyne emitted (server responses, loopback-client requests); '
-        'lxml-vs-soft verdict pairs over boundary values at every leaf slot of dense requests; non-trivial = an emitted document that was '
+        'lxml-vs-soft verdict pairs over boundary values at every leaf slot of dense requests, and over EVERY slot and boundary value of a fixed three-level class tree (inherited mandatory, bounded-repeat, array and faceted members); non-trivial = an emitted document that was '
         'validated, or a boundary document that reached both validators; distinct by (protocol, emitter/slot position, facet, value label).')
 ASSUMPTIONS = [
     'libxml2 (lxml) is the schema processor; the schema is compiled by spyne.interface.xml_schema build_validation_schema from the documents spyne writes',
@@ -33,7 +33,10 @@ SHARD_TIMEOUT = {'quick': 900, 'thorough': 3000}
 def shards(tier, seed):
     n = 16 if tier == 'quick' else 48
     per = 2 if tier == 'quick' else 8
-    return [{'shard': 'u%d' % i, 'tier': tier, 'seed': seed, 'first': i * per, 'count': per} for i in range(n)]
+    out = [{'shard': 'u%d' % i, 'tier': tier, 'seed': seed, 'first': i * per, 'count': per} for i in range(n)]
+    # fixed three-level class tree: occurrence and facet boundaries of inherited members, every slot, every XML protocol
+    out += [{'shard': 'inh/%s' % k, 'mode': 'inheritance', 'kind': k, 'tier': tier, 'seed': seed} for k in c01.PROTOCOLS]
+    return out
 
 
 def universe(seed, uid):
@@ -171,7 +174,7 @@ def err_kind(err, doc):
     return 'other'
 
 
-def verdict_pairs(R, C, ir, kind, rng, tier, repro):
+def verdict_pairs(R, C, ir, kind, rng, tier, repro, exhaustive=False):
     """(3) lxml vs soft verdicts on boundary documents."""
     from spyne.server import ServerBase
     B = C.B
@@ -185,6 +188,8 @@ def verdict_pairs(R, C, ir, kind, rng, tier, repro):
         return
     Wn = refxml.Wire(B, C.wsdl, rng, strict=False)
     budget = 60 if tier == 'quick' else 400
+    if exhaustive:
+        budget = 10 ** 6
     n = 0
     for sd in ir['services']:
         for md in sd['methods']:
@@ -196,7 +201,7 @@ def verdict_pairs(R, C, ir, kind, rng, tier, repro):
             for ai, ((an, at), av) in enumerate(zip(md['args'], args)):
                 sl = list(refval.slots(ir, at, av, (), 'top'))
                 rng.shuffle(sl)
-                for path, lt, pos in sl[:6 if tier == 'quick' else 30]:
+                for path, lt, pos in (sl if exhaustive else sl[:6 if tier == 'quick' else 30]):
                     for val, label in refval.boundary_values(rng, lt, lexical=False):
                         if n >= budget:
                             return
@@ -280,14 +285,38 @@ def disagree_kind(outs, facets, lt, label, pos):
     return '%s:%s:%s' % (who, '+'.join(facets) or 'none', gen.shape(lt)[:24])
 
 
+def run_inheritance(R, spec):
+    ir = gen.inheritance_ir()
+    kind = spec['kind']
+    rng = core.rng_for(spec['seed'], PROP, spec['shard'])
+    repro = {'seed': spec['seed'], 'uid': ir['uid'], 'kind': kind}
+    C = c01.Ctx(ir, kind, 'soft', rng)
+    R.evaluations += 1
+    if C.schema_validator is None:
+        R.violation('the published schema does not compile: %s' % getattr(C, 'schema_error', '?')[:300], repro, mech='schema_compile:inheritance_universe')
+        return
+    R.count('schemas_compiled')
+    for rep in range(1 if spec['tier'] == 'quick' else 4):
+        verdict_pairs(R, C, ir, kind, rng, spec['tier'], repro, exhaustive=True)
+    R.count('inheritance_universe_runs')
+
+
 def run(spec, R):
+    if spec.get('mode') == 'inheritance':
+        run_inheritance(R, spec)
+        for k in REQUIRED_COUNTERS:
+            R.count(k, 0)
+        return
     for uid in range(spec['first'], spec['first'] + spec['count']):
         run_universe(R, spec['seed'], uid, spec['tier'])
 
 
 def replay(v, R):
     c = v['repro']
-    run_universe(R, c['seed'], c['uid'], 'thorough')
+    if c.get('uid') == 9100:
+        run_inheritance(R, {'seed': c['seed'], 'kind': c['kind'], 'shard': 'inh/%s' % c['kind'], 'tier': 'thorough'})
+    else:
+        run_universe(R, c['seed'], c['uid'], 'thorough')
     for x in R.violations[:10]:
         print('replayed:', x.get('mech'), x.get('what')[:300])
 
